@@ -81,15 +81,20 @@ func genOps(t *rapid.T, n, keys int, c13 bool) []Op {
 		return j
 	}
 	norestart := os.Getenv("C06_NORESTART") != ""
+	// cumulative weights: tx, inject, gossip, fb, redeliver, stop/start, partition, sub
+	w := [8]int{24, 32, 62, 70, 80, 90, 95, 100}
+	if c13 {
+		w = [8]int{20, 30, 58, 63, 83, 89, 93, 100}
+	}
 	for len(ops) < nops {
 		x := rapid.IntRange(0, 99).Draw(t, "kind")
 		switch {
-		case x < 24:
+		case x < w[0]:
 			ops = append(ops, Op{Kind: "tx", N: node("n"), Subs: genSubs(t, keys)})
-		case x < 32:
+		case x < w[1]:
 			ops = append(ops, Op{Kind: "inject", N: node("n"), L: rapid.IntRange(0, 1).Draw(t, "l"),
 				Gap: rapid.SampledFrom([]int{1, 1, 1, 2, 5}).Draw(t, "gap"), Subs: genSubs(t, keys)})
-		case x < 62:
+		case x < w[2]:
 			a := node("a")
 			ops = append(ops, Op{Kind: "gossip", N: a, M: other(a, "b"),
 				DropReq:  rapid.IntRange(0, 9).Draw(t, "drop_req") == 0,
@@ -97,14 +102,14 @@ func genOps(t *rapid.T, n, keys int, c13 bool) []Op {
 				AckEarly: rapid.IntRange(0, 3).Draw(t, "ack_early") == 0,
 				FbReq:    rapid.SampledFrom(fbModes).Draw(t, "fb_req"),
 				FbAck:    rapid.SampledFrom(fbModes).Draw(t, "fb_ack")})
-		case x < 70:
+		case x < w[3]:
 			ops = append(ops, Op{Kind: "fb", Pick: rapid.IntRange(0, 5).Draw(t, "pick"),
 				Act: rapid.SampledFrom([]string{"deliver", "deliver", "dup", "drop"}).Draw(t, "act")})
-		case x < 80:
+		case x < w[4]:
 			ops = append(ops, Op{Kind: "redeliver", N: node("n"), Idx: rapid.IntRange(0, 40).Draw(t, "idx"), Idx2: rapid.IntRange(0, 40).Draw(t, "idx2"),
 				Mode:  rapid.SampledFrom([]string{"full", "full", "first", "second", "rev", "merge", "twice"}).Draw(t, "mode"),
 				FbReq: rapid.SampledFrom(fbModes).Draw(t, "fb_req")})
-		case x < 90:
+		case x < w[5]:
 			if norestart {
 				continue
 			}
@@ -120,7 +125,7 @@ func genOps(t *rapid.T, n, keys int, c13 bool) []Op {
 				down = node("n")
 				ops = append(ops, Op{Kind: "stop", N: down})
 			}
-		case x < 95:
+		case x < w[6]:
 			if cut {
 				ops = append(ops, Op{Kind: "heal"})
 				cut = false
